@@ -109,6 +109,9 @@ func (f *FlowMod) MarshalBinary() (data []byte, err error) {
 	data = append(data, bytes...)
 
 	for _, instr := range f.Instructions {
+		if f.Command == FC_DELETE || f.Command == FC_DELETE_STRICT {
+			break // Len() does not count instructions for delete commands
+		}
 		bytes, err = instr.MarshalBinary()
 		data = append(data, bytes...)
 		log.Debugf("flowmod instr: %v", bytes)
